@@ -1,108 +1,16 @@
-import NotationCore.Generated.Tables
-import NotationCore.Generated.Shape
-import NotationCore.Model.Conc
+import NotationCore.Tie.X509
+import NotationCore.Tie.Base
+import NotationCore.Tie.Ocsp
+import NotationCore.Tie.Crl
+import NotationCore.Tie.Conc
+import NotationCore.Tie.Fetcher
+import NotationCore.Tie.Result
+import NotationCore.Tie.Constants
 /-!
   Tie lemmas: facts extracted from the *current* Go source (`Generated.*`, rewritten on every run)
   equal the facts the hand-written model was written for.  A flipped comparison, a `break` turned
   into `continue`, a changed channel capacity, a goroutine writing somewhere else, or a reordered
   enum breaks one of these lemmas even where no dynamic test can observe the difference
-  (e.g. `now == NextUpdate`).
+  (e.g. `now == NextUpdate`).  One module per topic: a property's check builds only the ties it lists
+  (`props.json`), so that a change to one function does not raise an alarm for every property.
 -/
-namespace NotationCore.Tie
-open NotationCore.Generated
-
-/-- `validateSigningTime`: bounds are inclusive (Before / After, not !After / !Before) — Model.Chain.validateSigningTime -/
-theorem x509_validateSigningTime :
-    Shape.x509_validateSigningTime = ["signingTime.Before(cert.NotBefore)", "signingTime.After(cert.NotAfter)"] := rfl
-
-/-- base `validateSigningAndExpiryTime` — Model.Base.validateSigningAndExpiryTime -/
-theorem base_validateSigningAndExpiryTime :
-    Shape.base_validateSigningAndExpiryTime =
-      ["signingTime.IsZero()", "!expireTime.IsZero()", "expireTime.Before(signingTime)", "expireTime.Equal(signingTime)"] := rfl
-
-/-- OCSP `checkStatusFromServer` — Model.Ocsp.checkStatusFromServer -/
-theorem ocsp_checkStatusFromServer :
-    Shape.ocsp_checkStatusFromServer =
-      ["time.Now().After(resp.NextUpdate)", "!opts.SigningTime.IsZero()", "opts.SigningTime.Before(invalidityDate)"] := rfl
-
-/-- CRL `validateCRL` — Model.Crl.validateCRL -/
-theorem crl_validateCRL :
-    Shape.crl_validateCRL =
-      ["crl.NextUpdate.IsZero()", "now.After(crl.NextUpdate)", "ext.Id.Equal(oidIssuingDistributionPoint)",
-       "ext.Id.Equal(oidDeltaCRLIndicator)"] := rfl
-
-/-- CRL `validate`: delta number must be strictly greater, indicator must not exceed — Model.Crl.validate -/
-theorem crl_validate :
-    Shape.crl_validate =
-      ["deltaCRL.Number.Cmp(baseCRL.Number) <= 0", "minimumBaseCRLNumber.Cmp(baseCRL.Number) > 0"] := rfl
-
-/-- CRL `CertCheckStatus`: every failure inside the distribution-point loop `break`s (never
-    `continue`s), a revocation `return`s — Model.Crl.loop -/
-theorem crl_certCheckStatus_exits :
-    Shape.crl_certCheckStatus_exits = ["break", "break", "break", "break", "return"] := rfl
-
-/-- `ValidateContext`: buffered panic channel of capacity len(chain), one goroutine per
-    certificate with `defer wg.Done()` + recover-and-send, writing only its own slot, `wg.Wait()`
-    after the loop — Model.Conc -/
-theorem revocation_ValidateContext_conc :
-    Shape.revocation_ValidateContext_conc =
-      ["make-chan cap=len(certChain)", "wg.Add", "go {defer wg.Done; defer recover-and-send} writes{certResults[param]}",
-       "wg.Add", "go {defer wg.Done; defer recover-and-send} writes{certResults[param]}", "wg.Wait"] := rfl
-
-/-- `ocsp.CheckStatus` (after the F11 repair: same recover structure) — Model.Conc -/
-theorem ocsp_CheckStatus_conc :
-    Shape.ocsp_CheckStatus_conc =
-      ["make-chan cap=len(opts.CertChain)", "wg.Add",
-       "go {defer wg.Done; defer recover-and-send} writes{certResults[param]}", "wg.Wait"] := rfl
-
-/-- `ValidateContext`, statement by statement: the panic channel has the capacity of the chain
-    length and is closed by a deferred call; inside the loop over all certificates but the last,
-    each `go` is directly preceded by `wg.Add(1)`, defers `wg.Done()` first and the
-    recover-and-send second (so the send happens before `Done`), receives the loop index as an
-    argument and writes only `certResults[i]`; a certificate without OCSP / CRL is stored by the
-    main goroutine; then the last slot, `wg.Wait()`, the non-blocking receive that re-panics, the
-    return of `certResults` — Model.Conc (`Conc.step`) -/
-theorem revocation_ValidateContext_skel :
-    Shape.revocation_ValidateContext_skel =
-      ["chan panicChan cap=len(certChain)", "defer close(panicChan)", "loop over certChain[:len(certChain)-1]",
-       "add1; go {defer wg.Done; defer recover-and-send} writes{certResults[param]} params(p0,p1) args(loopkey,loopval)",
-       "add1; go {defer wg.Done; defer recover-and-send} writes{certResults[param]} params(p0,p1) args(loopkey,loopval)",
-       "main-store certResults[loopkey]", "end-loop", "store certResults[len(certChain) - 1]", "wait",
-       "select case{p := <-panicChan => panic(p);} default", "return certResults,nil"] := rfl
-
-theorem ocsp_CheckStatus_skel :
-    Shape.ocsp_CheckStatus_skel =
-      ["chan panicChan cap=len(opts.CertChain)", "defer close(panicChan)", "loop over opts.CertChain[:len(opts.CertChain)-1]",
-       "add1; go {defer wg.Done; defer recover-and-send} writes{certResults[param]} params(p0,p1) args(loopkey,loopval)",
-       "end-loop", "store certResults[len(opts.CertChain) - 1]", "wait",
-       "select case{p := <-panicChan => panic(p);} default", "return certResults,nil"] := rfl
-
-/-- the reading of those two traces as a `Conc.Skel` -/
-def validateContextSkel : Conc.Skel :=
-  { chanCapIsChainLen := true, closeDeferred := true, forks := [Conc.goodFork, Conc.goodFork], waitAfterLoop := true, selectAfterWait := true }
-def checkStatusSkel : Conc.Skel :=
-  { chanCapIsChainLen := true, closeDeferred := true, forks := [Conc.goodFork], waitAfterLoop := true, selectAfterWait := true }
-
-/-- both are the skeleton `Conc.step` is the semantics of -/
-theorem skels_good : validateContextSkel.good = true ∧ checkStatusSkel.good = true := by decide
-
-/-- CRL `checkRevocation` — Model.Crl.checkRevocation -/
-theorem crl_checkRevocation :
-    Shape.crl_checkRevocation =
-      ["revocationEntry.SerialNumber.Cmp(cert.SerialNumber) == 0", "!signingTime.IsZero()",
-       "!extensions.invalidityDate.IsZero()", "signingTime.Before(extensions.invalidityDate)",
-       "latestTempRevokedEntry.RevocationTime.Before(revocationEntry.RevocationTime)"] := rfl
-
-/-- CRL fetcher `isEffective` — Model.Fetcher.isEffective -/
-theorem fetcher_isEffective :
-    Shape.fetcher_isEffective = ["!crl.NextUpdate.IsZero()", "!time.Now().After(crl.NextUpdate)"] := rfl
-
-/-- enum values the model's `Result` / `Method` constructors stand for -/
-theorem result_values :
-    (resultUnknown, resultOK, resultNonRevokable, resultRevoked) = (0, 1, 2, 3) ∧
-    (methodUnknown, methodOCSP, methodCRL, methodOCSPFallbackCRL) = (0, 1, 2, 3) := ⟨rfl, rfl⟩
-
-/-- the only public key types `ExtractKeySpec` knows — shape of `Model.Algorithm.extractKeySpec` -/
-theorem extract_key_types : extractKeyTypes = ["ecdsa.PublicKey", "rsa.PublicKey"] := rfl
-
-end NotationCore.Tie
